@@ -92,6 +92,8 @@ structure Bus where
   handlers : List Reg := []          -- registration order (per key the code keeps a list; see `applicable`)
   everRegs : List Reg := []          -- ghost: every registration ever made (a removed expect() handler may still be scheduled)
   queue : List EId := []             -- event_queue, head first
+  enq : List EId := []               -- ghost: every event ever accepted into the queue, in order
+  taken : List EId := []             -- ghost: every event ever taken off the queue (run loop or inline), in order
   hist : List EId := []              -- event_history keys, insertion order
   parallel : Bool := false
   maxh : Option Nat := some 50       -- max_history_size
